@@ -130,6 +130,10 @@ class C04(Prop):
         except Exception as exc:
             acc.violation("valid-hex-raised", f"{type(exc).__name__} on valid hex ({tag})", {"p": hexstr[:200]})
             return
+        if isinstance(r1, str) and len(hexstr) <= 1200 and not tag.startswith("signed-once"):
+            # a frame captured from the wire is a byte string like any other: signing it appends four more bytes
+            self._call(acc, r1, "signed-once " + tag[:60])
+            acc.count("already_signed_inputs")
         if r1 != r2:
             acc.violation("nondeterministic", f"two calls differ ({tag})", {"p": hexstr[:200], "r1": r1[-8:], "r2": r2[-8:]})
         for mech, detail in self.rec.drain():
